@@ -827,6 +827,12 @@ impl Gen {
         let m = w.model.node_slot(node)?;
         let len = chars_len(&w.model.nodes[m].data);
         let kind = w.model.nodes[m].kind;
+        if self.rng.pct(12) {
+            let data = w.model.nodes[m].data.clone();
+            if let Some(op) = self.seam_edit(node, &data) {
+                return Some(op);
+            }
+        }
         let illegal = self.rng.pct(self.p.illegal_pct);
         let off = if illegal {
             self.fault("F1_offset_beyond_length");
@@ -855,6 +861,57 @@ impl Gen {
                     Op::Substring { node, off, cnt }
                 }
             }
+        })
+    }
+
+    /// An edit placed where the inserted piece and the data already stored form a forbidden
+    /// sequence only together (`]]` + `>`, `-` + `-`), at the left or at the right seam.
+    fn seam_edit(&mut self, node: S, data: &str) -> Option<Op> {
+        let chars: Vec<char> = data.chars().collect();
+        let mut cands: Vec<(usize, &'static str)> = vec![];
+        for i in 0..=chars.len() {
+            let next = chars.get(i).copied();
+            let next2 = chars.get(i + 1).copied();
+            let prev = if i > 0 { Some(chars[i - 1]) } else { None };
+            let prev2 = if i > 1 { Some(chars[i - 2]) } else { None };
+            if next == Some('>') {
+                cands.push((i, "]]"));
+                cands.push((i, "a]]"));
+            }
+            if next == Some(']') && next2 == Some('>') {
+                cands.push((i, "]"));
+                cands.push((i, "x]"));
+            }
+            if next == Some('-') {
+                cands.push((i, "-"));
+                cands.push((i, "a-"));
+            }
+            if prev == Some(']') && prev2 == Some(']') {
+                cands.push((i, ">"));
+                cands.push((i, ">b"));
+            }
+            if prev == Some(']') {
+                cands.push((i, "]>"));
+            }
+            if prev == Some('-') {
+                cands.push((i, "-"));
+                cands.push((i, "-b"));
+            }
+            if prev == Some(']') && next == Some('>') {
+                cands.push((i, "]"));
+            }
+        }
+        if cands.is_empty() {
+            return None;
+        }
+        let (at, piece) = *self.rng.pick(&cands);
+        self.fault("F1_edit_at_markup_seam");
+        Some(if self.rng.pct(50) {
+            Op::InsertData { node, off: at, data: piece.to_string() }
+        } else {
+            // replace_data whose replaced range ends at (or just before) the seam
+            let cnt = self.rng.below(2).min(at);
+            Op::ReplaceData { node, off: at - cnt, cnt, data: piece.to_string() }
         })
     }
 
@@ -950,6 +1007,12 @@ impl Gen {
                 return Some(Op::NewCtx { out, ns });
             }
         };
+        if self.rng.pct(6) {
+            // the caller re-binds or removes a prefix on the context it keeps re-using
+            let prefix = self.rng.ps(&["p", "q", "", "p"]).to_string();
+            let uri = self.rng.ps(&["urn:p", "urn:q", "urn:d", "", "urn:other"]).to_string();
+            return Some(Op::CtxNs { ctx, prefix, uri });
+        }
         let doc = self.rng.below(w.model.docs.len());
         let expr = query_expr(&mut self.rng, self.p.failing_queries);
         let out = self.fresh(task);
